@@ -35,7 +35,7 @@ def parseDeriv (t : String) : Option (Nat × Char) :=
   | none => none
   | some k => do
     let p ← (String.ofList cs.dropLast).toNat?
-    if "WKFMLSP".toList.contains k then pure (p, k) else none
+    if "WKFMLSPC".toList.contains k then pure (p, k) else none
 
 def parseDerivs (s : String) : Option (List (Nat × Char)) :=
   if s == "-" then some [] else (s.splitOn ",").mapM parseDeriv
@@ -52,8 +52,15 @@ def parseD (text : String) : Option DCase :=
     | _ => none
   | _ => none
 
+/-- ids ≥ `guardBase` are the producer-stop guards of concurrent-map children: lifecycle elements without an open
+    function, not probes of the harness, so they never show in an observation. -/
+def guardBase : Nat := 100000
+
+def probesOnly (l : List Nat) : List Nat := l.filter (· < guardBase)
+
 def kindOf (j : Nat) (k : Char) : Kind :=
   match k with
+  | 'C' => .concMap (guardBase + j)
   | 'W' => .withLifecycle j
   | 'K' => .withLock j
   | 'F' => .share .filterEven
@@ -69,15 +76,38 @@ def runModelD (c : DCase) : DState :=
   let st0 := initState [(rootIds c.root, 0)]
   (c.ds.foldl (fun (acc : DState × Nat) d =>
     let plen := (acc.1.streams.getD d.1 { prov := [], lc := nilSlice }).lc.len
-    (derive acc.1 { parent := d.1, kind := kindOf acc.2 d.2, grow := plen - 1 }, acc.2 + 1)) (st0, 1)).1
+    let grow := if d.2 == 'C' then acc.2 % 2 else plen - 1
+    (derive acc.1 { parent := d.1, kind := kindOf acc.2 d.2, grow := grow }, acc.2 + 1)) (st0, 1)).1
 
 def srcData : List Int := [0, 1, 2, 3]
 
 def fmtInts (l : List Int) : String := fmtList toString l
 
+/-- How the elements of stream `i` are compared: 0 = the exact sequence; 1 = as a sorted multiset (a concurrent map on
+    the path: order unspecified, Filter/Map/Peek commute with any order); 2 = only their number (Limit/Skip below a
+    concurrent map: which elements pass depends on the schedule, how many does not). -/
+def dataMode (c : DCase) : Nat → Nat → Nat
+  | 0, _ => 0
+  | fuel + 1, i =>
+    if i == 0 then 0 else
+    match c.ds[i - 1]? with
+    | none => 0
+    | some (p, k) =>
+      let m := dataMode c fuel p
+      if k == 'C' then max m 1
+      else if (k == 'L' || k == 'S') && m ≥ 1 then 2
+      else m
+
+def fmtData (mode : Nat) (l : List Int) : String :=
+  match mode with
+  | 0 => fmtInts l
+  | 1 => fmtInts (l.toArray.qsort (· < ·)).toList
+  | _ => s!"#{l.length}"
+
 def fmtD (c : DCase) (lc : Nat → List Nat) (data : Nat → List Int) : String :=
   let n := c.ds.length + 1
-  let solo := (List.range n).map (fun i => s!"{i}:{fmtNatList (lc i)}/{fmtNatList (lc i)}/{fmtInts (data i)}")
+  let solo := (List.range n).map (fun i =>
+    s!"{i}:{fmtNatList (lc i)}/{fmtNatList (lc i)}/{fmtData (dataMode c n i) (data i)}")
   let alls := c.ords.map (fun ord =>
     " ; all " ++ " ".intercalate (ord.map (fun i => s!"{i}:{fmtNatList (lc i)}/{fmtNatList (lc i)}")))
   "solo " ++ " ".intercalate solo ++ String.join alls
@@ -95,6 +125,7 @@ def dataOpOf (k : Char) : List Int → List Int :=
   match k with
   | 'F' => fun l => l.filter (fun v => v % 2 == 0)
   | 'M' => fun l => l.map (· + 10)
+  | 'C' => fun l => l.map (· + 10)
   | 'L' => fun l => l.take 2
   | 'S' => fun l => l.drop 1
   | _ => id
@@ -113,7 +144,7 @@ def handleD (text obs : String) : String × Bool × String :=
   | some c =>
     let st := runModelD c
     let model := fmtD c
-      (fun i => match st.streams[i]? with | some s => (materialise st.heap s).1 | none => [])
+      (fun i => match st.streams[i]? with | some s => probesOnly (materialise st.heap s).1 | none => [])
       (fun i => match st.streams[i]? with | some s => dataOf srcData s.prov | none => [])
     let n := c.ds.length + 1
     let want := fmtD c (pathIds c n) (pathData c n)
